@@ -163,7 +163,15 @@ def gen_pairs(ctx, rng, count):
             start = "explicit"
         if start == "explicit":
             age = rng.choice([rng.randrange(depth + 5, 4000), rng.randrange(4000, 10 ** 7)])
-            opts["start"] = (t1 - datetime.timedelta(seconds=age)).replace(microsecond=0).strftime("%Y-%m-%dT%H:%M:%SZ")
+            st_ = (t1 - datetime.timedelta(seconds=age)).replace(microsecond=0)
+            if rng.random() < .4:
+                # a legal explicit start with a non-UTC offset (URL-encoded: '+' must be %2B)
+                off = rng.choice([120, -330, 345, -60, 840, -720])
+                loc = st_ + datetime.timedelta(minutes=off)
+                sign = "%2B" if off >= 0 else "-"
+                opts["start"] = loc.strftime("%Y-%m-%dT%H:%M:%S") + f"{sign}{abs(off) // 60:02d}:{abs(off) % 60:02d}"
+            else:
+                opts["start"] = st_.strftime("%Y-%m-%dT%H:%M:%SZ")
         else:
             opts["start"] = start
         if i % 16 == 5:
@@ -217,7 +225,7 @@ def ch_pair(ctx) -> Channel:
             set_stream_defaults(app, stream, defaults)
             if defaults:
                 ch.count("stream_defaults")
-            ch.count(f"start:{opts['start'] if opts['start'] in ('epoch','year','month','today') else 'explicit'}")
+            ch.count(f"start:{opts['start'] if opts['start'] in ('epoch','year','month','today') else ('explicit-offset' if opts['start'][-1] != 'Z' else 'explicit')}")
             trk = segchecks.tracks(app, stream)
             clock.set(t1)
             r1 = client.get(url)
@@ -283,7 +291,8 @@ def ch_pair(ctx) -> Channel:
                             fail = f"PatchLocation {patch_location(patched)} vs {patch_location(root2)}"
                         elif timelines_of(patched) != timelines_of(root2):
                             fail = "SegmentTimelines differ"
-                        elif proot.get("originalPublishTime") != root1.get("publishTime"):
+                        elif (segwalk.parse_datetime_us(proot.get("originalPublishTime"))
+                              != segwalk.parse_datetime_us(root1.get("publishTime"))):
                             fail = f"originalPublishTime {proot.get('originalPublishTime')} vs {root1.get('publishTime')}"
                         elif proot.get("mpdId") != root1.get("id"):
                             fail = f"mpdId {proot.get('mpdId')} vs {root1.get('id')}"
